@@ -397,6 +397,39 @@ def clientSetupRequest (scheme : Scheme) (cfgProto : Option SessProto) (mediaPro
   else if h264m0 ∧ p ≠ .tcp then .refused          -- ErrClientH264PacketizationMode0
   else .request p pr (isSecure pr)
 
+/-- why the client abandons UDP for TCP inside a session (`Protocol == nil`): no UDP packet within
+`InitialUDPReadTimeout` (`trySwitchingProtocol`), SETUP answered 461, SETUP answered with a TCP
+transport. -/
+inductive SwitchEv where
+  | noUDP | status461 | answeredTCP
+deriving DecidableEq, Repr
+
+/-- `c.setuppedTransport` after a switch: TCP, and the PROFILE of the transport that is given up
+(`Profile: prevProfile` / `Profile: th.Profile`; tied to the source by the facts
+`switchCarriesProfile` = 3 sites and `switchPrevProfileFromTransport`). -/
+def clientSwitch (prev : SessProto × Profile) (_ : SwitchEv) : SessProto × Profile :=
+  (.tcp, if Sec.switchCarriesProfile = 3 ∧ Sec.switchPrevProfileFromTransport then prev.2 else .avp)
+
+/-- a SETUP issued while `c.setuppedTransport != nil` (second media, or re-SETUP after a switch):
+"use protocol and secure flag from previous SETUP calls" -/
+def clientResetup (scheme : Scheme) (prev : SessProto × Profile) : ClientSetup :=
+  let (p, pr) : SessProto × Profile := if Sec.setupReusesTransport then prev else (prev.1, .avp)
+  if (p = .udp ∨ p = .mcast) ∧ Sec.clientNoPlainUDPOverTLS ∧ scheme = .rtsps ∧ !isSecure pr then .refused
+  else .request p pr (isSecure pr)
+
+/-- all SETUP requests of one media over the life of a session: the first one, then one per switch -/
+def clientSetupsFrom (scheme : Scheme) (cur : SessProto × Profile) : List SwitchEv → List ClientSetup
+  | [] => []
+  | ev :: rest =>
+    let next := clientSwitch cur ev
+    clientResetup scheme next :: clientSetupsFrom scheme next rest
+
+def clientSessionSetups (scheme : Scheme) (cfgProto : Option SessProto) (mediaProfile : Profile)
+    (h264m0 tunnel : Bool) (evs : List SwitchEv) : List ClientSetup :=
+  match clientSetupRequest scheme cfgProto mediaProfile h264m0 tunnel with
+  | .refused => [.refused]
+  | .request p pr km => .request p pr km :: clientSetupsFrom scheme (p, pr) evs
+
 /-- the client's check of the SETUP response profile (`thRes.Profile != th.Profile`) -/
 def clientAcceptsProfile (requested answered : Profile) : Bool :=
   if Sec.clientProfileCheck then requested == answered else true
